@@ -126,16 +126,13 @@ func (i Info) AppendHash(dst []byte, h hash.Hash) []byte {
 	forms := make([]form.Data, len(i.Form))
 	copy(forms, i.Form)
 	sort.SliceStable(forms, func(a, b int) bool {
-		typeA, _ := forms[a].GetString("FORM_TYPE")
-		typeB, _ := forms[b].GetString("FORM_TYPE")
-		return typeA < typeB
+		return capsFormType(&forms[a]) < capsFormType(&forms[b])
 	})
 	for _, infoForm := range forms {
-		var formType string
+		formType := capsFormType(&infoForm)
 		fields := make([]string, 0, infoForm.Len())
 		infoForm.ForFields(func(f form.FieldData) {
 			if f.Var == "FORM_TYPE" {
-				formType, _ = infoForm.GetString("FORM_TYPE")
 				return
 			}
 			fields = append(fields, f.Var)
